@@ -36,7 +36,7 @@ COMPONENTS = {
 ASSUMPTIONS = ["reference order = plain recursive lexicographic enumeration, Lehmer-code rank (ref/order.py)",
                "str round trip only for length <= 10, integer notation only where a leading zero is not lost"]
 EXPECTED_PROBES = ["memo_hit", "memo_equal_distinct_key", "after_flood", "after_clear", "interleaved_generators", "boundary_rank",
-                   "ties", "error_case", "mesh_of_length", "first_generator"]
+                   "ties", "error_case", "mesh_of_length", "first_generator", "interrupted_call"]
 
 
 def plan(tier):
@@ -148,6 +148,8 @@ def gen_case(rng, tier):
             else:
                 seq = _rand_seq(rng)
                 seqs.append(seq)
+            if rng.random() < 0.08:
+                ops.append({"op": "interrupted_std", "seq": seq, "at": rng.randint(1, 12)})
             ops.append({"op": "std", "seq": seq, "via": rng.choice(["to_standard", "standardize", "from_iterable"]),
                         "cont": rng.choice(["list", "tuple", "iter", "gen"])})
         elif r < 0.81:
@@ -155,7 +157,8 @@ def gen_case(rng, tier):
         elif r < 0.93:
             n = rng.randint(0, 10 if rng.random() < 0.8 else 12)
             ops.append({"op": "notation", "what": rng.choice(["str", "repr", "one_based", "from_integer1", "from_integer0", "validated_tuple",
-                                                               "validated_str", "validated_list"]), "perm": common.rand_perm(rng, n)})
+                                                               "validated_str", "validated_list", "validated_gen", "validated_iter", "validated_map",
+                                                               "one_based_gen", "perm_from_gen", "from_string_eps"]), "perm": common.rand_perm(rng, n)})
         elif r < 0.96:
             n = rng.randint(1, 5)
             p = common.rand_perm(rng, n)
@@ -167,7 +170,7 @@ def gen_case(rng, tier):
             else:
                 what = "type"
                 p[rng.randrange(n)] = None if rng.random() < 0.5 else 0.5
-            ops.append({"op": "validated_error", "what": what, "seq": p})
+            ops.append({"op": "validated_error", "what": what, "seq": p, "cont": rng.choice(["tuple", "tuple", "gen", "iter"])})
         else:
             n = rng.choice([0, 1, 2, 2, 3])
             ops.append({"op": "mesh_rank", "perm": common.rand_perm(rng, n), "r": rng.randrange(2 ** ((n + 1) ** 2))})
@@ -202,6 +205,22 @@ def _decode_vals(seq):
 
 
 _DRAIN_CAP = 6000
+
+
+def perm_defect(pm, got, want):
+    """None when `got` is the Perm with entries `want` (exact ints, usual
+    notations), otherwise what is wrong with it."""
+    if not isinstance(got, pm.Perm):
+        return f"result is a {type(got).__name__}, not a Perm"
+    if tuple(got) != tuple(want):
+        return f"entries {tuple(got)}, expected {tuple(want)}"
+    if any(type(v) is not int for v in got):  # noqa: E721  (bool / float entries compare equal but are not a permutation)
+        return f"entries are not ints: {tuple(got)!r}"
+    if repr(got) != f"Perm({tuple(want)!r})":
+        return f"repr is {repr(got)}"
+    if 0 < len(want) <= 10 and str(got) != "".join(str(v) for v in want):
+        return f"str is {str(got)!r}"
+    return None
 
 
 def execute(case):
@@ -270,6 +289,8 @@ def execute(case):
                     break
                 for item in li.items[before:]:
                     want = next(li.meta["ref"], None)
+                    if item == want and li.meta["kind"] in ("of_length", "up_to_length", "first") and any(type(v) is not int for v in item):  # noqa: E721
+                        want = ("<ints>",) + tuple(want)
                     if item != want:
                         hist.violate("wrong_sequence", {"op": li.meta["kind"]},
                                      f"{li.meta['kind']}({li.meta['arg']}): item #{li.meta['checked']} is {item}, the order says {want}")
@@ -285,8 +306,11 @@ def execute(case):
             elif kind == "iter_abandon":
                 hist.abandon(op["id"])
             elif kind == "unrank":
-                got = tuple(pm.Perm.unrank(op["r"]))
+                gobj = pm.Perm.unrank(op["r"])
+                got = tuple(gobj)
                 want = RO.unrank(op["r"])
+                if got == want and perm_defect(pm, gobj, want):
+                    hist.violate("wrong_unrank", {"with_length": False, "what": "object"}, f"unrank({op['r']}): {perm_defect(pm, gobj, want)}")
                 hist.log.add("unrank", op["r"], got)
                 if op["r"] in (0, 1, 3, 9, 33, 153, 873, 5913, 46233, 2, 4, 10, 34, 154, 874, 5914, 46234):
                     out.probe("boundary_rank")
@@ -353,10 +377,23 @@ def execute(case):
                 got = getattr(pm.Perm, op["via"])(arg)
                 hist.log.add("std", core.canon(repr(vals)), tuple(got))
                 cached_keys.setdefault(key, set()).add(sig)
-                if tuple(got) != want or not isinstance(got, pm.Perm):
+                defect = perm_defect(pm, got, want)
+                if defect is not None:
                     hist.violate("wrong_standardisation", {"memo": status},
-                                 f"{op['via']}({vals!r}) = {tuple(got)}, left-to-right tie-breaking gives {want}")
+                                 f"{op['via']}({vals!r}): {defect} (left-to-right tie-breaking gives {want})")
                 abst.append(("std", status, state["flooded"]))
+            elif kind == "interrupted_std":
+                import os  # pylint: disable=import-outside-toplevel
+
+                vals = _decode_vals(op["seq"])
+                status, _r, _n = histsim.run_interruptible(lambda v=vals: pm.Perm.to_standard(list(v)), op["at"],
+                                                           [os.path.join(core.repo_dir(), "permuta") + os.sep])
+                if status == "interrupted":
+                    out.fault("interrupted_call")
+                    out.probe("interrupted_call")
+                else:
+                    cached_keys.setdefault(TypedKey(tuple(vals)), set()).add(tuple(type(v).__name__ for v in vals))
+                hist.log.add("interrupted_std", status)
             elif kind == "memo_clear":
                 if hasattr(memo, "cache_clear"):
                     memo.cache_clear()
@@ -394,16 +431,34 @@ def execute(case):
                     got = pm.Perm.from_iterable_validated(list(p))
                 elif what == "validated_str" and n <= 10:
                     got = pm.Perm.from_iterable_validated("".join(str(v) for v in p))
+                elif what == "validated_gen":
+                    got = pm.Perm.from_iterable_validated(v for v in p)
+                elif what == "validated_iter":
+                    got = pm.Perm.from_iterable_validated(iter(list(p)))
+                elif what == "validated_map":
+                    got = pm.Perm.from_iterable_validated(map(int, list(p)))
+                elif what == "one_based_gen":
+                    got = pm.Perm.one_based(v + 1 for v in p)
+                elif what == "perm_from_gen":
+                    got = pm.Perm(v for v in p)
+                elif what == "from_string_eps" and n == 0:
+                    got = pm.Perm.from_string(str(perm))
                 if got is not None:
                     hist.log.add("notation", what, tuple(got))
-                    if tuple(got) != p or not isinstance(got, pm.Perm):
-                        hist.violate("notation_round_trip", {"what": what}, f"{what} round trip of {p} gives {tuple(got)}")
+                    defect = perm_defect(pm, got, p)
+                    if defect is not None:
+                        hist.violate("notation_round_trip", {"what": what}, f"{what} round trip of {p}: {defect}")
                 abst.append(("notation", what))
             elif kind == "validated_error":
                 out.probe("error_case")
                 want = TypeError if op["what"] == "type" else ValueError
                 try:
-                    res = pm.Perm.from_iterable_validated(tuple(op["seq"]))
+                    arg = tuple(op["seq"])
+                    if op.get("cont") == "gen":
+                        arg = (v for v in op["seq"])
+                    elif op.get("cont") == "iter":
+                        arg = iter(list(op["seq"]))
+                    res = pm.Perm.from_iterable_validated(arg)
                     hist.violate("validation_missed", {"what": op["what"]}, f"from_iterable_validated({op['seq']}) returned {tuple(res)} instead of raising {want.__name__}")
                 except (TypeError, ValueError) as exc:
                     if not isinstance(exc, want):
